@@ -19,8 +19,12 @@ slot attribute (if any) equals the package slot and the operator holds -- lt/le/
 prefix rule (glob_holds).  On a disagreement every range is re-asked alone through
 GlsaDirSet.generate_restrict_from_range to name the range kind that is wrong (bucket key).
 
-Not generated (outside the accepted domain): `rlt` without revision (pkgcore rejects the whole entry as "guaranteed
-empty set"), slot="*", unknown operators, globs on non-eq ranges, `~arch` keywords for an arch the entry names.
+  bystanders  advisories with several <package> entries in document order where some entries are unusable (each kind
+              pkgcore documents: rlt without revision, glob on a non-eq range, unknown operator, malformed version, empty
+              element; in a vulnerable or an unaffected range) at every position: the well-formed entries must still be
+              yielded and flag exactly their packages (class wellformed_entry_after_unusable_entry); also via hypothesis
+Unusable entries are only bystanders: nothing is asserted about what they flag.  Not generated: slot="*", `~arch`
+keywords for an arch the entry names.
 """
 import itertools
 import os
@@ -92,7 +96,8 @@ def mkentry(name="a/x", arch=None, vulnerable=(), unaffected=()):
 
 def range_xml(tag, r):
     slot = f' slot="{r["slot"]}"' if r.get("slot") is not None else ""
-    text = M.fullver(r["ver"], r.get("rev")) + ("*" if r.get("glob") else "")
+    # "text" overrides the element text (unusable entries: malformed version, empty element)
+    text = r["text"] if "text" in r else M.fullver(r["ver"], r.get("rev")) + ("*" if r.get("glob") else "")
     return f'      <{tag} range="{r["op"]}"{slot}>{text}</{tag}>'
 
 
@@ -106,6 +111,8 @@ def entry_xml(e):
 
 
 def range_text(tag, r):
+    if "text" in r:
+        return f"{tag[0]}:{r['op']} {r['text']!r}"
     return f"{tag[0]}:{r['op']} {M.fullver(r['ver'], r.get('rev'))}{'*' if r.get('glob') else ''}" + (
         f" slot={r['slot']}" if r.get("slot") is not None else "")
 
@@ -344,6 +351,135 @@ def pkg_text_of(m):
     return f"{m.key}-{m.fullver}:{m.slot}"
 
 
+# ---- advisories with several <package> entries, some of them unusable ---------------------------
+
+# every kind of <package> entry pkgcore documents as unusable (it logs a warning and skips that entry)
+UNUSABLE = {
+    "rlt-without-revision": lambda: mkrange("rlt", "2"),
+    "glob-on-non-eq": lambda: mkrange("ge", "1", glob=True),
+    "unknown-operator": lambda: mkrange("xx", "1"),
+    "bad-version": lambda: dict(mkrange("eq", "1"), text="1..2"),
+    "empty-version": lambda: dict(mkrange("lt", "1"), text=""),
+}
+
+
+def unusable_entry(kind, name="a/u", where="vulnerable"):
+    bad = UNUSABLE[kind]()
+    if where == "vulnerable":
+        e = mkentry(name=name, vulnerable=[mkrange("lt", "9"), bad])
+    else:
+        e = mkentry(name=name, vulnerable=[mkrange("lt", "9")], unaffected=[bad])
+    e["unusable"] = kind
+    return e
+
+
+def files_xml(entries):
+    return "\n".join(entry_xml(e) for e in entries)
+
+
+def check_files(ctx, objs, files, pkgs, extra=()):
+    """files = list of advisories, each a list of <package> entries in document order; entries marked "unusable" are
+    bystanders.  Every well-formed entry must be yielded and flag exactly its vulnerable packages wherever it stands."""
+    case0 = {"files": files, "pkgs": pkgs}
+
+    def load():
+        d = ctx.fresh_dir("glsa")
+        for i, entries in enumerate(files):
+            gid = f"2000{i // 100:02d}-{i % 100:02d}"
+            with open(os.path.join(d, f"glsa-{gid}.xml"), "w") as f:
+                f.write(TEMPLATE.format(id=gid, packages=files_xml(entries)))
+        src = objs.glsa.GlsaDirSet(d)
+        ids = [(x[0], x[1]) for x in src.iter_vulnerabilities()]
+        rs = list(src)
+        if len(ids) != len(rs):
+            raise core.HarnessError("iter(GlsaDirSet) and iter_vulnerabilities() disagree in length")
+        return d, ids, rs
+
+    got = core.guarded(ctx, case0, load)
+    if core.crashed(got):
+        return
+    d, ids, rs = got
+    # yielded (advisory id, package name) -> the next not yet consumed well-formed entry of that advisory and name
+    found = {}
+    unexpected = []
+    for (gid, name), restrict in zip(ids, rs):
+        a, b = gid.split("-")
+        fi = (int(a) - 200000) * 100 + int(b)
+        for ei, e in enumerate(files[fi]):
+            if e["name"] == name and "unusable" not in e and (fi, ei) not in found:
+                found[(fi, ei)] = restrict
+                break
+        else:
+            unexpected.append((fi, name))
+    for fi, name in unexpected:
+        ctx.violation("unusable-entry-yielded", dict(case0, file=fi), f"advisory #{fi} yields a restriction for {name} that no well-formed entry accounts for")
+    for fi, entries in enumerate(files):
+        seen_unusable = False
+        for ei, e in enumerate(entries):
+            if "unusable" in e:
+                seen_unusable = True
+                continue
+            restrict = found.get((fi, ei))
+            cls = list(extra) + ["multi-entry-advisory"]
+            if seen_unusable:
+                cls.append("wellformed_entry_after_unusable_entry")
+            if any("unusable" in x for x in entries[ei + 1:]):
+                cls.append("wellformed_entry_before_unusable_entry")
+            for p in pkgs:
+                case = {"files": [entries], "entry_index": ei, "pkgs": [p]}
+                exp = affected(e, p)
+                ctx.case(case, nontrivial=e["name"] == p["name"] and (seen_unusable or nontrivial(e, p)),
+                         classes=classify(e, p) + cls + ["expect:" + ("affected" if exp else "clean")],
+                         key="F|" + " || ".join(entry_text(x) + ("!" + x["unusable"] if "unusable" in x else "") for x in entries)
+                             + f"|{ei}|" + pkg_text(p))
+                if restrict is None:
+                    if exp:
+                        b = "entry-dropped:after-unusable-entry" if seen_unusable else "entry-dropped"
+                        ctx.violation(b, case, f"no restriction is yielded for well-formed entry #{ei} [{entry_text(e)}] of an advisory whose "
+                                               f"entries are {[x.get('unusable', 'ok') for x in entries]}; {pkg_text(p)} goes unreported")
+                    continue
+
+                def body(restrict=restrict, e=e, p=p, case=case, exp=exp):
+                    g = bool(restrict.match(objs.pkg(p)))
+                    if g != exp:
+                        ctx.violation(bucket_for(objs, e, p, g, exp), case,
+                                      f"[{entry_text(e)}] vs {pkg_text(p)}: restriction.match={g}, GLSA reference={exp}")
+
+                core.guarded(ctx, case, body)
+    import shutil
+
+    shutil.rmtree(d, ignore_errors=True)
+
+
+WELLFORMED = [
+    lambda n: mkentry(name=n, vulnerable=[mkrange("lt", "2")]),
+    lambda n: mkentry(name=n, vulnerable=[mkrange("rge", "1", "1", slot="0")], unaffected=[mkrange("eq", "1", "2")]),
+    lambda n: mkentry(name=n, arch="x86", vulnerable=[mkrange("ge", "1.1"), mkrange("eq", "0.9")]),
+]
+
+
+def task_bystanders(ctx, objs):
+    """each unusable kind (in a vulnerable or an unaffected range) at every position among well-formed entries"""
+    pkgs = [mkpkg(name=n, ver=v, rev=r, slot=sl) for n in ("a/x", "a/y", "a/u")
+            for (v, r, sl) in (("0.9", None, "0"), ("1", None, "0"), ("1", "1", "0"), ("1", "2", "1"), ("1.1", None, "0"), ("3", None, "0"))]
+    files = []
+    n = 0
+    for kind in UNUSABLE:
+        for where in ("vulnerable", "unaffected"):
+            for uname in ("a/u", "a/x"):
+                u = lambda: unusable_entry(kind, uname, where)  # noqa: E731
+                w = [WELLFORMED[(n + k) % len(WELLFORMED)] for k in range(3)]
+                n += 1
+                files.append([u(), w[0]("a/x"), w[1]("a/y")])
+                files.append([w[0]("a/x"), u(), w[1]("a/y")])
+                files.append([w[0]("a/x"), w[1]("a/y"), u()])
+                files.append([w[2]("a/y"), u(), u(), w[0]("a/x"), w[1]("a/x")])
+    files.append([w("a/x") for w in WELLFORMED])  # control: no unusable entry
+    for i in range(0, len(files), 60):
+        check_files(ctx, objs, files[i:i + 60], pkgs, extra=("bystanders",))
+    ctx.note("bystander_advisories", len(files))
+
+
 # ---- universes ---------------------------------------------------------------------------------
 
 RVERS = ["1", "1.0", "1.1", "10", "2", "1_p1", "1_p", "1a"]
@@ -476,10 +612,26 @@ def advisory(draw):
     return entries, uniq
 
 
+_kind = st.sampled_from(sorted(UNUSABLE))
+_where = st.sampled_from(["vulnerable", "unaffected"])
+_uname = st.sampled_from(["a/x", "a/y", "a/u"])
+
+
+@st.composite
+def advisory_file(draw):
+    """one advisory = the entries of advisory() in document order, with 0-2 unusable entries inserted anywhere"""
+    entries, pkgs = draw(advisory())
+    out = list(entries)
+    for _ in range(draw(_i[2])):
+        pos = int(draw(_unit) * (len(out) + 1))
+        out.insert(pos, unusable_entry(draw(_kind), draw(_uname), draw(_where)))
+    return out, pkgs
+
+
 def plan(tier, seed):
     A.preload()
-    tasks = [{"task": "single", "slice": i, "nslices": 6} for i in range(6)]
-    tasks.append({"task": "arch"})
+    tasks = [{"task": "bystanders"}, {"task": "arch"}]
+    tasks += [{"task": "single", "slice": i, "nslices": 6} for i in range(6)]
     n, ex = (5, 200) if tier == "quick" else (16, 5000)
     for i in range(n):
         tasks.append({"task": "hyp", "examples": ex})
@@ -492,19 +644,29 @@ def run_task(ctx, task, **kw):
         task_single(ctx, objs, kw["slice"], kw["nslices"])
     elif task == "arch":
         task_arch(ctx, objs)
+    elif task == "bystanders":
+        task_bystanders(ctx, objs)
     elif task == "hyp":
         def f(adv):
             check_entries(ctx, objs, adv[0], adv[1], extra=("hyp",), full=True)
             objs._pk.clear()
 
-        core.hyp_run(ctx, advisory(), f, kw["examples"], chunk=150)
+        def f2(adv):
+            check_files(ctx, objs, [adv[0]], adv[1], extra=("hyp",))
+            objs._pk.clear()
+
+        n = kw["examples"]
+        core.hyp_run(ctx, advisory(), f, n - n // 3, chunk=150)
+        core.hyp_run(ctx, advisory_file(), f2, n // 3, chunk=150, seed_salt=1)
     else:
         raise core.HarnessError(f"unknown task {task}")
 
 
 def replay(ctx, case):
     objs = Objs()
-    if "entries" in case:
+    if "files" in case:
+        check_files(ctx, objs, case["files"], case["pkgs"])
+    elif "entries" in case:
         check_entries(ctx, objs, case["entries"], case["pkgs"], full=True)
     else:
         check_entries(ctx, objs, [case["entry"]], [case["pkg"]])
